@@ -1,7 +1,8 @@
+import Chartparse.Proofs.TrackProofs
 import Chartparse.Proofs.InstProofs
 /-! Property theorems of C03 (statements only; helper lemmas live in `Proofs/`). -/
 namespace Chartparse.Props.C03
-open Chartparse Chartparse.Inst
+open Chartparse Chartparse.Inst Chartparse.Tempo
 
 theorem refine_none :
     ∀ (l : List (Option Nat)) (h : ∀ d ∈ l, d = none),
@@ -32,5 +33,16 @@ theorem C03_flags :
     ∀ (g : List NDatum) (d : NDatum) (h : 4 < d.idx),
     fill (g ++ [d]) = fill g :=
   @Chartparse.Inst.fill_flag
+
+/-- **C03 (track)**: every note's sustain is `complex_sustain` of its own group -/
+theorem C03_track :
+    ∀ {res evs sps gs prev b s ns} (h : NotesOf res evs sps gs prev b s ns),
+    gs.map complexSustain = ns.map (fun n => .ok n.sustain) :=
+  @Chartparse.Inst.notes_sustain
+
+/-- non-vacuity: two lanes with different lengths give the five-slot tuple; equal lengths one number; open its own -/
+example : (complexSustain [⟨0, 0, 100⟩, ⟨0, 2, 0⟩, ⟨0, 6, 7⟩]).toOption = some (.tuple [some 100, none, some 0, none, none]) ∧
+    (complexSustain [⟨0, 1, 50⟩, ⟨0, 4, 50⟩, ⟨0, 5, 9⟩]).toOption = some (.ticks 50) ∧
+    (complexSustain [⟨0, 7, 33⟩, ⟨0, 5, 0⟩]).toOption = some (.ticks 33) := by decide
 
 end Chartparse.Props.C03
